@@ -169,6 +169,44 @@ def neighbour_answer_probe(request_id):
     return simnet.run(go)
 
 
+def multi_type_subscription_probe():
+    """Subscriber A registers for several message types at once (none of them used before), subscriber B later for ONE of them,
+    then A unsubscribes: every message reaches exactly the subscribers registered for ITS type at that moment.
+    Returns a list of problems."""
+    import asyncio
+    from vlib import simnet
+    from vlib.privnames import priv
+
+    async def go(loop):
+        from aioesphomeapi import api_pb2 as pb
+        net = simnet.Net(loop)
+        problems = []
+        with net.patched():
+            cli, tr = await simnet.connected_client(loop, net)
+            conn = priv(cli, "_connection")
+            seen = []
+            types = (pb.SensorStateResponse, pb.SwitchStateResponse, pb.TextSensorStateResponse)
+            rm_a = conn.add_message_callback(lambda m: seen.append(("A", type(m).__name__)), types)
+            rm_b = conn.add_message_callback(lambda m: seen.append(("B", type(m).__name__)), (pb.SwitchStateResponse,))
+
+            async def feed_all(tag, want):
+                del seen[:]
+                for cls in types:
+                    tr.feed(simnet.plain_msg(cls(key=1)))
+                await simnet.drain(loop)
+                if sorted(seen) != sorted(want):
+                    problems.append(f"{tag}: one message of each of {[c.__name__ for c in types]} reached {sorted(seen)}, expected {sorted(want)}")
+            await feed_all("A on three types, B on SwitchStateResponse", [("A", c.__name__) for c in types] + [("B", "SwitchStateResponse")])
+            rm_a()
+            await feed_all("after A unsubscribed", [("B", "SwitchStateResponse")])
+            rm_b()
+            await feed_all("after both unsubscribed", [])
+            await cli.disconnect(force=True)
+            await simnet.drain(loop)
+        return problems
+    return simnet.run(go)
+
+
 def run(rep, tier, seed):
     connfamily.run(rep, tier, seed, "C12", VFILE, RULE)
     for helper in ("plaintext", "noise"):
@@ -179,6 +217,11 @@ def run(rep, tier, seed):
             i, seen, want, wrote, state = bad[0]
             rep.violation("C12/deliveries", f"{helper} connection, one subscriber per declared message class: a frame with id {i} reached {seen}, api.proto says {want} "
                           f"({wrote} frame(s) written in response, state {state}); {len(bad)} id(s) deviate", {"kind": "dispatch-by-declared-id", "helper": helper})
+    problems = multi_type_subscription_probe()
+    rep.case(("multi-type-subscription",), True, sample={"multi_type_subscription": problems[:2]})
+    rep.bump("probe:multi-type-subscription")
+    if problems:
+        rep.violation("C12/deliveries", f"{problems[0]}; {len(problems)} problem(s)", {"kind": "multi-type-subscription"})
     for rid in (7, 36, 5):
         frames, problem = neighbour_answer_probe(rid)
         rep.case(("neighbour-answer", rid), True, sample={"neighbour_answer": rid, "frames_written": frames})
@@ -207,6 +250,12 @@ def replay(path):
         common.setup_impl_path()
         print(dispatch_by_declared_id(d["helper"]))
         return 0
+    if d.get("kind") == "multi-type-subscription":
+        from vlib import common
+        common.setup_impl_path()
+        problems = multi_type_subscription_probe()
+        print(problems)
+        return 1 if problems else 0
     if d.get("kind") == "neighbour-answer":
         from vlib import common
         common.setup_impl_path()
